@@ -56,6 +56,10 @@ type Attempt struct {
 	// IE / SE: error kind returned by a failing constructor / Impl.Subscribe.
 	IE string `json:"ie,omitempty"`
 	SE string `json:"se,omitempty"`
+	// CE: what the transport's own Close returns: "" nil, always (an error every
+	// time), second (an error from the second call on, like grpc's
+	// ErrClientConnClosing), afterfail (an error once a Recv has failed).
+	CE string `json:"ce,omitempty"`
 	// Dial: the constructor of this attempt is the real client/gnmi New,
 	// dialling a target that never completes a connection: silent (accepts TCP,
 	// never speaks), refuse (nobody listens), closing (accepts and closes).
@@ -110,6 +114,7 @@ type Case struct {
 func (c Case) reconnect() bool { return strings.HasPrefix(c.Kind, "re") }
 
 var errImpl = errors.New("scripted transport error")
+var errImplClose = errors.New("scripted transport: the connection is closing")
 
 // errOf maps an error kind of the script alphabet to an error value.  The
 // client must treat all of them alike (any error other than the bare io.EOF /
@@ -264,7 +269,7 @@ func (s *scen) doClose() {
 		if err != nil {
 			atomic.StoreInt32(&s.closeFailed, 1)
 		}
-		s.log(Ev{T: "closeret", OK: err == nil})
+		s.log(Ev{T: "closeret", OK: closeOK(err)})
 	}()
 }
 
@@ -370,6 +375,7 @@ type impl struct {
 	closed chan struct{}
 	once   sync.Once
 	ncl    int32
+	failed int32 // a Recv has returned an error
 }
 
 func factory(ctx context.Context, d client.Destination) (client.Impl, error) {
@@ -548,6 +554,14 @@ func (m *impl) Subscribe(ctx context.Context, q client.Query) error {
 }
 
 func (m *impl) Recv() error {
+	err := m.recv()
+	if err != nil && err != io.EOF && err != client.ErrStopReading {
+		atomic.StoreInt32(&m.failed, 1)
+	}
+	return err
+}
+
+func (m *impl) recv() error {
 	i := m.pos
 	m.pos++
 	m.s.log(Ev{T: "recv", K: m.k, I: i})
@@ -635,16 +649,35 @@ func (m *impl) Close() error {
 	m.once.Do(func() { close(m.closed) })
 	n := int(atomic.AddInt32(&m.ncl, 1)) - 1
 	m.s.gate(fmt.Sprintf("implclose:%d:%d", m.k, n))
-	if m.gs != nil {
-		return nil // client/gnmi's Close only closes the grpc connection, which the stub does not have
+	var err error
+	if m.gs == nil { // client/gnmi's Close only closes the grpc connection, which the stub does not have
+		err = m.inner.Close()
 	}
-	return m.inner.Close()
+	switch m.a.CE {
+	case "always":
+		err = errImplClose
+	case "second":
+		if n >= 1 {
+			err = errImplClose
+		}
+	case "afterfail":
+		if atomic.LoadInt32(&m.failed) != 0 {
+			err = errImplClose
+		}
+	}
+	return err
 }
 
 func (m *impl) Poll() error { return nil }
 
 // ---------------------------------------------------------------------------
 // one scenario
+
+// closeOK projects what Close returned: only "rejected with ErrClientInit" (no
+// transport yet, the call had no effect) versus "accepted" is specified; an
+// accepted Close may hand through whatever error the transport's own Close
+// returned, and the property must hold all the same.
+func closeOK(err error) bool { return !errors.Is(err, client.ErrClientInit) }
 
 func rcls(err error) string {
 	switch {
@@ -873,7 +906,7 @@ func runCase(c Case) []Ev {
 			}()
 			s.log(Ev{T: "closecall"})
 			err := s.closer()
-			s.log(Ev{T: "closeret", OK: err == nil})
+			s.log(Ev{T: "closeret", OK: closeOK(err)})
 		}()
 		return done
 	}
@@ -950,7 +983,7 @@ func (s *scen) asyncClose(short bool) {
 		}()
 		s.log(Ev{T: "closecall"})
 		err := s.closer()
-		s.log(Ev{T: "closeret", OK: err == nil})
+		s.log(Ev{T: "closeret", OK: closeOK(err)})
 	}()
 	wait := time.Second
 	if short {
@@ -1199,6 +1232,9 @@ func randScript(r *vh.Rand, allowEmpty bool) []Attempt {
 			its = append(its, ierrK(errKinds[r.Intn(len(errKinds))]))
 		}
 		as[k] = ok(its...)
+		if r.Chance(1, 3) {
+			as[k].CE = []string{"always", "second", "afterfail"}[r.Intn(3)]
+		}
 	}
 	// mostly start with an attempt that ends with nil so that the backoff is short
 	if r.Chance(4, 5) && !(as[0].Init && as[0].Sub && len(as[0].Items) > 0 && as[0].Items[len(as[0].Items)-1].K == "eof") {
@@ -1482,6 +1518,41 @@ func main() {
 							}
 						}
 						cs = append(cs, c)
+					}
+				}
+			}
+		}
+		// faults of the transport's own Close (an error always / from the second call
+		// on / once a Recv has failed) at every point where Close can arrive
+		cfScripts := [][]Attempt{
+			{ok(msg(), msg(), msg(), msg(), block())},
+			{ok(msg(), ierr()), ok(msg(), msg(), msg(), block())},
+			{ok(msg(), eof()), ok(msg(), msg3(), msg(), blockq())},
+		}
+		for _, kind := range kinds {
+			rc := strings.HasPrefix(kind, "re")
+			for si, base := range cfScripts {
+				for ci, ce := range []string{"always", "second", "afterfail"} {
+					as := make([]Attempt, len(base))
+					copy(as, base)
+					for j := range as {
+						as[j].CE = ce
+					}
+					var then []string
+					if !rc {
+						for j := 1; j < len(as); j++ {
+							then = append(then, "sub")
+						}
+					}
+					last := len(as) - 1
+					points := []string{fmt.Sprintf("recv:%d:1", last), fmt.Sprintf("h:%d:1", last), fmt.Sprintf("recv:%d:0", last),
+						fmt.Sprintf("init:%d", last), fmt.Sprintf("sub:%d", last), fmt.Sprintf("postsub:%d", last)}
+					if last > 0 {
+						points = append(points, fmt.Sprintf("implclose:%d:%d", last-1, map[bool]int{true: 1, false: 0}[si == 1]))
+					}
+					for pi, g := range points {
+						inner := []string{"fake", "gnmi"}[(si+ci+pi)%2]
+						cs = append(cs, Case{Family: "closefault", Kind: kind, Inner: inner, Attempts: as, Ops: []Act{{Gate: g, What: "close"}}, Then: then})
 					}
 				}
 			}
